@@ -89,6 +89,8 @@ def impl_extract(b, name, repl, want_file, d):
         common.make_stale(p)
     with open(inp, "wb") as fh:
         fh.write(b)
+    if repl is not None and want_file and (len(name) + len(repl)) % 3 == 0:
+        rp = op          # an exchange in place: the file that brings the replacement is the file that receives the extracted payload
     if repl is not None:
         with open(rp, "wb") as fh:
             fh.write(repl)
